@@ -66,6 +66,12 @@ func (c *Ctx) T(fn *ssa.Function) *Terms {
 		return t
 	}
 	t := NewTerms(c.P, fn)
+	// two passes when the first one finds infeasible edges (a re-tested condition): the values of
+	// address-taken locals are then numbered again without the stores that only reach through them
+	if dead := NewFuncFacts(t).DeadEdges(); len(dead) > 0 {
+		t = NewTerms(c.P, fn)
+		t.Dead = dead
+	}
 	c.terms[fn] = t
 	c.Analysed[FuncName(fn)] = true
 	return t
